@@ -1577,13 +1577,17 @@ func variadicInts(v ssa.Value) []ssa.Value {
 
 func moreETagProvenance(p *Program, r *Report) {
 	rule := "R-C01-5"
-	r.Rule(rule, "the ETag is the MD5 of the stored bytes: in posix PutObject, UploadPart and UploadPartCopy the value stored under the etag key is the hex form of Sum() of a hash made by md5.New(), that hash is the writer of an io.TeeReader, the reader copied into the temp file is that TeeReader (possibly wrapped by checksum readers that pass bytes through), and Sum() is taken only after the copy", 3)
+	if r.Prop == "C08" {
+		rule = "R-C08-9"
+	}
+	r.Rule(rule, "the ETag is the MD5 of the stored bytes: in posix PutObject, UploadPart and UploadPartCopy the value stored under the etag key is the hex form of Sum() of a hash made by md5.New(), that hash is the writer of an io.TeeReader, the reader copied into the temp file is that TeeReader (possibly wrapped by checksum readers that pass bytes through), and Sum() is taken only after the copy; the stored value has no other origin on any path", 3)
 	etagKey, _ := pkgConstString(p, "backend/posix", "etagkey")
 	through := &originOpts{extra: map[string][]int{"s3api/utils.NewHashReader": {0}, "encoding/hex.EncodeToString": {0}, "io.LimitReader": {0}}}
 	for _, name := range []string{"PutObject", "UploadPart", "UploadPartCopy"} {
 		f := p.Func(posixP + name)
 		// the etag write that goes through the temp file
 		var sums []ssa.CallInstruction
+		var others []string
 		nStores := 0
 		for _, mc := range metaCallsIn(f) {
 			if mc.method != "StoreAttribute" || mc.keyArg != etagKey || isNilConst(mc.call.Common().Args[0]) {
@@ -1594,8 +1598,17 @@ func moreETagProvenance(p *Program, r *Report) {
 			for _, rt := range Origins(args[len(args)-1], through) {
 				if rt.Kind == "call" && rt.Call != nil && rt.Call.Common().IsInvoke() && rt.Call.Common().Method.Name() == "Sum" {
 					sums = append(sums, rt.Call)
+				} else if rt.Kind != "const" && rt.Kind != "via" {
+					// every way the value is produced must be the digest: an ETag taken over from elsewhere
+					// (the source object's attribute, a request field) on some path is not the MD5 of the bytes written
+					others = append(others, rt.String())
 				}
 			}
+		}
+		if len(others) > 0 {
+			r.Viol(rule, fnName(f)+"/etag:only-from-hash-sum", p.Pos(f.Pos()), "the ETag stored through the temp file is on some path not the digest of the copied bytes but "+strings.Join(others, ", ")+" (e.g. the source object's ETag, which for a multipart source is not an MD5): the completed object's ETag is then not the S3 multipart ETag of its parts")
+		} else if nStores > 0 {
+			r.Ok(rule, fnName(f)+"/etag:only-from-hash-sum", p.Pos(f.Pos()), "the stored ETag has no origin other than the digest")
 		}
 		key := fnName(f) + "/etag"
 		if nStores == 0 || len(sums) == 0 {
